@@ -36,7 +36,7 @@ class Lock:
 
 def regenerate():
     notes = []
-    for tool in ("gen_tables.py", "gen_statics.py"):
+    for tool in ("gen_tables.py", "gen_statics.py", "gen_kernels.py"):
         path = os.path.join(HERE, tool)
         if not os.path.exists(path):
             continue
